@@ -134,8 +134,9 @@ impl TextDocument {
 
 pub struct Documents(
     DashMap<String, TextDocument>,
-    /// Serializes the asynchronous writes of changed documents to disk (see `write_changes_to_file`).
-    tokio::sync::Mutex<()>,
+    /// Serializes the asynchronous writes of changed documents to disk (see `write_changes_to_file`)
+    /// and holds the modification time given to the file written last.
+    tokio::sync::Mutex<Option<std::time::SystemTime>>,
 );
 
 impl Default for Documents {
@@ -146,7 +147,7 @@ impl Default for Documents {
 
 impl Documents {
     pub fn new() -> Self {
-        Documents(DashMap::new(), tokio::sync::Mutex::new(()))
+        Documents(DashMap::new(), tokio::sync::Mutex::new(None))
     }
 
     pub async fn handle_open_file(&self, uri: &Url) {
@@ -169,7 +170,7 @@ impl Documents {
         // operations below run in the background and several `didChange` handlers can be in flight
         // at once. Without this lock (tokio's `Mutex` is fair, FIFO) an older text could be written
         // to the file after a newer one, and the last compilation would read the stale text.
-        let _write_guard = self.1.lock().await;
+        let mut last_mtime = self.1.lock().await;
 
         // Write the new text next to the file and rename it into place. Creating the file itself
         // truncates it first, and a compilation that is still running (for the previous request)
@@ -198,7 +199,24 @@ impl Documents {
                 path: uri.path().to_string(),
                 err: err.to_string(),
             })?;
-        drop(file);
+
+        // The module cache accepts a file whose modification time equals the one it recorded. A newly
+        // created file is stamped with the kernel's coarse clock (a timer tick), so two texts written
+        // within one tick would carry the same time and the second would never be compiled. Give
+        // every text the server writes a strictly later modification time than the previous one.
+        let now = std::time::SystemTime::now();
+        let mtime = match *last_mtime {
+            Some(previous) if now <= previous => previous + std::time::Duration::from_micros(1),
+            _ => now,
+        };
+        *last_mtime = Some(mtime);
+        file.into_std()
+            .await
+            .set_modified(mtime)
+            .map_err(|err| DocumentError::UnableToWriteFile {
+                path: uri.path().to_string(),
+                err: err.to_string(),
+            })?;
         tokio::fs::rename(&tmp_path, uri.path())
             .await
             .map_err(|err| DocumentError::UnableToWriteFile {
